@@ -218,10 +218,17 @@ class ModelParallel:
         if n_jobs == 0:
             raise ValueError("n_jobs == 0 in Parallel has no meaning")      # as joblib does
         self.n_jobs = n_jobs
+        self.timeout = kw.get("timeout")
 
     def __call__(self, iterable):
         sch = ModelParallel.scheduler_factory()
-        return sch.run_tasks(iterable, self.n_jobs)
+        res = sch.run_tasks(iterable, self.n_jobs)
+        if self.timeout is not None and res:
+            # joblib raises TimeoutError in the caller when a task needs longer than `timeout`; how long the user's
+            # objective takes is the environment's choice (evaluation time is unbounded in the statement)
+            if sch.ctx.choose("slow-task", 2, 1, "a task outlasts the timeout passed to Parallel") == 1:
+                raise TimeoutError("joblib: task exceeded timeout=%r" % (self.timeout,))
+        return res
 
 
 def model_delayed(fn):
